@@ -4,7 +4,8 @@ Mechanism A (universe export), everything decided by TLC:
 
 1. MC_TypeCompat, Part = "pairs": TLC enumerates every ordered pair of the annotation universe (quick: depth <= 1,
    thorough: depth <= 2), checks the laws of the reference relation as invariants on every pair and prints the
-   expected verdict yes / no / either (+ the don't-care classes responsible for an "either").
+   expected verdict yes / no / either (+ the don't-care classes responsible for an "either").  The thorough
+   universe also holds a handful of depth-3 nestings of Annotated / Array / unions.
 2. The harness materialises every annotation the way pipefunc obtains it -- a function `def p(a: <ann>) -> <ann>`
    is exec'd in a harness "user" module and read back through PipeFunc.output_annotation / parameter_annotations
    (safe_get_type_hints) -- in several source styles (typing.Union, PEP 604 + `from __future__ import annotations`,
@@ -248,7 +249,7 @@ def none_in_builtin(r: dict) -> bool:
 
 def features(a: dict, b: dict) -> dict:
     f = {"tuple_arity_differs": False, "tuple_fixed_to_variadic": False, "required_annotated_source_not": False,
-         "source_typevar": False, "source_annotated_union": False,
+         "source_typevar": False, "source_annotated_union": False, "array_source_required_annotated": False,
          "none_arg_of_builtin_generic": none_in_builtin(a) or none_in_builtin(b)}
     unions = ("union", "opt")
 
@@ -281,6 +282,10 @@ def features(a: dict, b: dict) -> dict:
             f["required_annotated_source_not"] = True
             if y["k"] == "ann":
                 walk(x, y["a"][0])
+            return
+        if x["k"] == "array" and y["k"] == "ann":     # Array[T] against a merely annotated type
+            f["array_source_required_annotated"] = True
+            walk(x, y["a"][0])
             return
         if x["k"] == "ann":
             walk(x["a"][0], y["a"][0])
@@ -723,7 +728,7 @@ def run(ctx: Ctx) -> None:
     rng = random.Random(ctx.seed)
     u = userland()
     ctx.rule = ("pair case = (source annotation, required annotation, source style); ALL ordered pairs of the TLA+-defined "
-                "universe (quick: depth <= 1, thorough: depth <= 2) exported by TLC from MC_TypeCompat with the verdict "
+                "universe (quick: depth <= 1, thorough: depth <= 2 plus six depth-3 nestings) exported by TLC from MC_TypeCompat with the verdict "
                 "yes/no/either, plus seeded random pairs of depth <= 3 decided by TLC through a generated ad-hoc module; "
                 "non-trivial = the two annotations differ, both exist and the required one is not Any. "
                 "pipeline case = (shape, annotations on its edges, validate flag, style) for 12 shapes of 2-3 functions; "
